@@ -1,5 +1,31 @@
 import PegVerif.Props.C04Exec
-import PegVerif.Props.C01
-/- C04 — derivation-level statements (on top of the token-list theorems of C04Exec). -/
+import PegVerif.Props.C03
+/-
+  C04 — derivation-level statement: composing C03 (tokens = post-order of the forest) with the
+  token-list theorem `C04_execute` gives: `Execute()` after a successful parse is the left-to-right
+  action trace of the successful derivation with the last completed capture.
+-/
 namespace PegVerif
+
+variable {P : Program} {cfg : Cfg} {env : CEnv} {G : Grammar} {inp : List Sym}
+
+/-- **C04**: for every run of a successful parse, `Execute()` on the published tokens is the
+    derivation-order action trace of the forest (actions inside backtracked branches or lookahead are
+    not in the forest, hence never run). -/
+theorem C04_execute_of_parse (hW : World P cfg env G inp) {acts : List String} {n cr p' forest evs o s'}
+    (hfind : P.find n = some cr) (hev : Eval G cfg.rho inp (.name n) 0 (.ok p' forest) evs)
+    (hrun : Exec P cfg inp cr 0 St.init Frame.empty (o, s')) :
+    execute acts (bufOf inp) (s'.tree.take s'.ti) =
+      some (actionTrace acts (bufOf inp) forest ExecState.init).1 := by
+  rw [(C03_tokens hW hfind hev hrun).1]
+  apply C04_execute
+  intro t ht _
+  have hwn := Eval_wellNested hev _ _ rfl
+  have hb := Eval_bound hev (Nat.zero_le _) _ _ rfl
+  have := WellNestedL.within forest 0 p' hwn t ht
+  refine ⟨this.2.1, ?_⟩
+  simp [bufOf]; omega
+
 end PegVerif
+
+#print axioms PegVerif.C04_execute_of_parse
